@@ -1,6 +1,7 @@
 import GettsimVerif.Lemmas.SimTargets
 import GettsimVerif.Lemmas.SimPerm
 import GettsimVerif.Lemmas.SimRound
+import GettsimVerif.Lemmas.SimKahn
 /-
 Helper lemmas for the properties C20 (data checks, conversion), C03 (row-wise rules), C11
 (precedence of aggregation specs) and C08 (completeness of a plan, fuel) on the CONCRETE model of
@@ -646,11 +647,18 @@ theorem mi_specOfName_user {fns : List Fn} {targets dataCols : List String}
 theorem mi_specOfName_auto (fns : List Fn) (targets dataCols : List String)
     (userSpecs : List (String × GroupSpec)) (n : String) (h : lookupLast userSpecs n = none) :
     specOfName fns targets dataCols userSpecs n =
-      if n ∈ fns.flatMap (·.args) ++ targets ∧ autoOk fns dataCols n = true
+      if n ∈ fns.flatMap (·.args) ++ targets ++ userSpecs.filterMap (fun (_, s) => s.source) ∧
+          autoOk fns dataCols n = true
       then some { aggr := .sum, source := some (removeGroupSuffix n) } else none := by
   unfold specOfName
   rw [h, Option.none_or]
   simp only [List.mem_filter, sumSpec]
+
+/-- the names for which an automatic group sum is considered -/
+theorem mi_mem_potential (a t : List String) (userSpecs : List (String × GroupSpec)) (n : String) :
+    n ∈ a ++ t ++ userSpecs.filterMap (fun (_, s) => s.source) ↔
+      n ∈ a ∨ n ∈ t ∨ ∃ e ∈ userSpecs, e.2.source = some n := by
+  rw [List.mem_append, List.mem_append, List.mem_filterMap, or_assoc]
 
 /-! ## names of the group aggregations are distinct -/
 
@@ -1464,5 +1472,157 @@ theorem mi_prepare_hyps {ruleFns : List Fn} {gs : List (String × GroupSpec)}
     rw [Bool.not_eq_true', ← Bool.not_eq_true, List.contains_iff_mem, ← hdc] at this
     exact this hin
   · rw [mi_convertData_names hconv, hdc]
+
+/-! ## the execution order `p.order` (second run of Kahn's algorithm) -/
+
+theorem mi_mem_graphOf_cases (fns : List (String × List String)) (e : String × List String)
+    (h : e ∈ graphOf fns) : e ∈ fns ∨ (e.2 = [] ∧ e.1 ∉ fns.map (·.1)) := by
+  unfold graphOf at h
+  rcases List.mem_append.1 h with h | h
+  · exact Or.inl h
+  · right
+    obtain ⟨r, hr, rfl⟩ := List.mem_map.1 h
+    rw [mi_dedup_mem, List.mem_filter] at hr
+    rcases hr with hr | hr
+    · cases hr
+    · refine ⟨rfl, ?_⟩
+      have := hr.2
+      rw [Bool.not_eq_true', ← Bool.not_eq_true, List.contains_iff_mem] at this
+      exact this
+
+theorem mi_planWith_order_eq {params : List (String × Val)} {targets : List String} {pr : Prep}
+    {specs : List (String × RSpec)} {p : Plan} (h : planWith params targets pr specs = .ok p) :
+    p.order = (topoOrder (graphOf (((rnd_necessaryFns targets pr).map fun f => (f.name, freeArgs params f)).filter
+        fun x => (pruneNames ((rnd_necessaryFns targets pr).map fun f => (f.name, freeArgs params f))
+          pr.dataCols targets).contains x.1))).filter
+      (pruneNames ((rnd_necessaryFns targets pr).map fun f => (f.name, freeArgs params f))
+        pr.dataCols targets).contains := by
+  unfold planWith at h
+  simp only at h
+  split at h
+  · cases h
+  · cases h; rfl
+
+/-- B.2 for the field `p.order` -/
+theorem mi_plan_order {params : List (String × Val)} {targets : List String} {pr : Prep} {p : Plan}
+    (hnd : (pr.fns.map (·.name)).Nodup) (h : plan params targets pr = .ok p) :
+    p.order.Nodup ∧ (∀ n, n ∈ p.order ↔ (Dag.find? p.sys n).isSome = true) ∧
+      ∀ n node, Dag.find? p.sys n = some node → ∀ d ∈ node.deps, (Dag.find? p.sys d).isSome = true →
+        ∃ pre post, p.order = pre ++ n :: post ∧ d ∈ pre := by
+  obtain ⟨hcyc, specs, _, hp⟩ := rnd_plan_ok h
+  obtain ⟨rank, _, hrank⟩ := mi_necessary_rank hnd hcyc
+  have hsys := mi_planWith_sys_eq hp
+  have hord := mi_planWith_order_eq hp
+  generalize hN : rnd_necessaryFns targets pr = N at hsys hord hrank
+  have hNnd : (N.map (·.name)).Nodup := by rw [← hN]; exact mi_necessary_nodup targets pr hnd
+  generalize hPN : pruneNames (N.map fun f => (f.name, freeArgs params f)) pr.dataCols targets = PN
+    at hsys hord
+  generalize hP : ((N.map fun f => (f.name, freeArgs params f)).filter fun x => PN.contains x.1) = P
+    at hord
+  -- the nodes of the system
+  have hisSys : ∀ n, (Dag.find? p.sys n).isSome = true ↔ n ∈ P.map (·.1) := by
+    intro n
+    rw [Dag.find?_isSome_iff, hsys, ← hP]
+    simp only [List.mem_map, List.mem_filter]
+    constructor
+    · rintro ⟨e, ⟨f, ⟨hf, hfp⟩, rfl⟩, rfl⟩
+      exact ⟨(f.name, freeArgs params f), ⟨⟨f, hf, rfl⟩, hfp⟩, rfl⟩
+    · rintro ⟨e, ⟨⟨f, hf, rfl⟩, hfp⟩, rfl⟩
+      exact ⟨(f.name, nodeOf params specs f), ⟨f, ⟨hf, hfp⟩, rfl⟩, rfl⟩
+  have hPmem : ∀ e ∈ P, ∃ f ∈ N, e = (f.name, freeArgs params f) ∧ PN.contains f.name = true := by
+    intro e he
+    rw [← hP, List.mem_filter, List.mem_map] at he
+    obtain ⟨⟨f, hf, rfl⟩, hfp⟩ := he
+    exact ⟨f, hf, rfl, hfp⟩
+  have hPnd : (P.map (·.1)).Nodup := by
+    rw [← hP]
+    have : ((N.map fun f => (f.name, freeArgs params f)).map (·.1)).Nodup := by
+      rw [List.map_map]; exact hNnd
+    exact this.sublist ((List.filter_sublist).map _)
+  have hgnd := mi_graphOf_keys_nodup P hPnd
+  -- the second graph passes the cycle check as well
+  have hcyc2 : hasCycle (graphOf P) = false := by
+    apply acyclic_of_rank (graphOf P) rank hgnd
+    intro n ds hnds d hd
+    rcases mi_mem_graphOf_cases P _ hnds with hin | ⟨hnil, _⟩
+    · refine ⟨?_, ?_⟩
+      · rw [mi_graphOf_keys]
+        by_cases hdn : d ∈ P.map (·.1)
+        · exact Or.inl hdn
+        · exact Or.inr ⟨List.mem_flatMap.2 ⟨(n, ds), hin, hd⟩, hdn⟩
+      · obtain ⟨f, hf, he, _⟩ := hPmem _ hin
+        cases he
+        exact hrank f hf d (mi_freeArgs_sub params f d hd)
+    · simp only at hnil
+      subst hnil
+      cases hd
+  have hcomplete := mi_topoOrder_complete (graphOf P) hcyc2
+  have hgood := mi_good_filter (graphOf P) PN.contains (mi_topoOrder_good (graphOf P))
+  have hgnd' := mi_filter_keys_nodup (graphOf P) PN.contains hgnd
+  have hrev : (topoOrder (graphOf P)).reverse.filter PN.contains = p.order.reverse := by
+    rw [hord, List.filter_reverse]
+  rw [hrev] at hgood
+  -- a root of the second graph is not among the pruned names
+  have hkeyPN : ∀ n, n ∈ (graphOf P).map (·.1) → PN.contains n = true → n ∈ P.map (·.1) := by
+    intro n hn hpn
+    rcases (mi_graphOf_keys P n).1 hn with h1 | ⟨_, h2⟩
+    · exact h1
+    · exfalso
+      apply h2
+      have hmem := List.contains_iff_mem.1 hpn
+      rw [← hPN] at hmem
+      unfold pruneNames at hmem
+      simp only [List.mem_map] at hmem
+      obtain ⟨e, he, rfl⟩ := hmem
+      unfold Dag.prune at he
+      rw [List.mem_filter, List.mem_map] at he
+      obtain ⟨⟨⟨n', ds'⟩, hin, rfl⟩, _⟩ := he
+      rw [← hP]
+      exact List.mem_map.2 ⟨(n', ds'), List.mem_filter.2 ⟨hin, hpn⟩, rfl⟩
+  have hmemOrder : ∀ n, n ∈ p.order ↔ (Dag.find? p.sys n).isSome = true := by
+    intro n
+    rw [hisSys, hord, List.mem_filter]
+    constructor
+    · rintro ⟨hto, hpn⟩
+      exact hkeyPN n (mi_good_keys (mi_topoOrder_good (graphOf P)) n (List.mem_reverse.2 hto)) hpn
+    · intro hn
+      refine ⟨hcomplete n ((mi_graphOf_keys P n).2 (Or.inl hn)), ?_⟩
+      obtain ⟨e, he, rfl⟩ := List.mem_map.1 hn
+      obtain ⟨f, _, he', hfp⟩ := hPmem e he
+      rw [he']; exact hfp
+  refine ⟨List.nodup_reverse.1 (mi_good_nodup hgood), hmemOrder, ?_⟩
+  intro n node hn d hd hs
+  have hnS : (Dag.find? p.sys n).isSome = true := by rw [hn]; rfl
+  have hnO : n ∈ p.order.reverse := List.mem_reverse.2 ((hmemOrder n).2 hnS)
+  obtain ⟨l1, rest, hL, hrest⟩ := mi_good_split hgnd' hgood hnO
+  -- the entry of `n` in the filtered graph
+  obtain ⟨e, he, hen⟩ := List.mem_map.1 ((hisSys n).1 hnS)
+  obtain ⟨f, hf, he', hfp⟩ := hPmem e he
+  subst he'
+  simp only at hen
+  have hdeps : node.deps = freeArgs params f := by
+    rw [hsys] at hn
+    obtain ⟨f', hf', hname, hnode⟩ := mi_find?_map_some _ hn
+    have hf'N : f' ∈ N := (List.mem_filter.1 hf').1
+    have : f' = f := by
+      have h1 := findFn?_of_mem_nodup hNnd hf'N
+      have h2 := findFn?_of_mem_nodup hNnd hf
+      rw [hname, ← hen, h2] at h1
+      exact (Option.some.inj h1).symm
+    rw [hnode, this]; rfl
+  have hg' : (n, (freeArgs params f).filter PN.contains) ∈
+      ((graphOf P).filter fun e => PN.contains e.1).map fun e => (e.1, e.2.filter PN.contains) := by
+    refine List.mem_map.2 ⟨(f.name, freeArgs params f),
+      List.mem_filter.2 ⟨mi_mem_graphOf P _ he, hfp⟩, ?_⟩
+    simp only [hen]
+  have hdPN : PN.contains d = true := by
+    obtain ⟨e', he', hde⟩ := List.mem_map.1 ((hisSys d).1 hs)
+    obtain ⟨f', _, hfe, hfp'⟩ := hPmem e' he'
+    rw [← hde, hfe]; exact hfp'
+  have hdrest := hrest _ hg' d (List.mem_filter.2 ⟨hdeps ▸ hd, hdPN⟩)
+  refine ⟨rest.reverse, l1.reverse, ?_, List.mem_reverse.2 hdrest⟩
+  have := congrArg List.reverse hL
+  rw [List.reverse_reverse] at this
+  rw [this]; simp
 
 end GV.Simulate
